@@ -208,7 +208,7 @@ func ruleConverters(c *Ctx) {
 		name, pos := funcName(fn), c.P.pos(fn.Pos())
 		seen := map[string]string{}
 		bad := []string{}
-		c.P.Simulate(fn, SimConfig{}, func(pr *PathResult) {
+		sim := c.P.Simulate(fn, SimConfig{MaxVisits: 2}, func(pr *PathResult) {
 			for _, e := range pr.Events {
 				if e.Kind != "store" || e.Addr.Op != "fa" || !refFields[e.Addr.Name] {
 					continue
@@ -230,6 +230,10 @@ func ruleConverters(c *Ctx) {
 				}
 			}
 		})
+		if sim.Overflow {
+			c.undecided("converter-field-map", name, pos, "path enumeration overflow")
+			continue
+		}
 		if len(seen) == 0 {
 			c.undecided("converter-field-map", name, pos, "no field copies recognised")
 			continue
@@ -251,4 +255,66 @@ func ruleConverters(c *Ctx) {
 		})
 		c.check(ok, "converter-field-map", funcName(fn), c.P.pos(fn.Pos()), g+" returns server."+f, g+" does not return server."+f, 1)
 	}
+}
+
+// ruleStoreWriteOrdered: writes and deletes on the persistent store issued by
+// package cache happen synchronously in the calling function (never in a
+// goroutine), so a purge that completes after a fetch cannot be undone by a late
+// write and a record is complete before the entry is reported stored.
+func ruleStoreWriteOrdered(c *Ctx) {
+	n := 0
+	bad := []string{}
+	for _, f := range c.P.allFuncs {
+		if !inPkg(f, "cache") {
+			continue
+		}
+		for _, b := range f.Blocks {
+			for _, in := range b.Instrs {
+				ci, ok := in.(ssa.CallInstruction)
+				if !ok || !ci.Common().IsInvoke() {
+					continue
+				}
+				m := ci.Common().Method
+				if !strings.HasSuffix(m.FullName(), "store.Store).Set") && !strings.HasSuffix(m.FullName(), "store.Store).Delete") {
+					continue
+				}
+				n++
+				if _, isGo := in.(*ssa.Go); isGo {
+					bad = append(bad, fmt.Sprintf("%s: %s issues store.%s in a goroutine", c.P.pos(in.Pos()), funcName(f), m.Name()))
+				}
+				// the enclosing function must not itself be launched with `go`
+				for g := f; g != nil; g = g.Parent() {
+					if launchedAsync(c.P, g) {
+						bad = append(bad, fmt.Sprintf("%s: store.%s runs in %s, which is started with `go`: the write is no longer ordered before a later purge / the completion's return", c.P.pos(in.Pos()), m.Name(), funcName(g)))
+					}
+				}
+			}
+		}
+	}
+	if n < 2 {
+		c.undecided("store-write-ordered", "cache", "-", fmt.Sprintf("only %d store write/delete sites found in package cache", n))
+		return
+	}
+	c.check(len(bad) == 0, "store-write-ordered", "cache", "cache/http_cache.go", fmt.Sprintf("%d store.Set / store.Delete sites in package cache, all synchronous", n), strings.Join(uniq(bad), " || "), n)
+}
+
+// launchedAsync: some `go` statement in pike starts f (directly or as a closure).
+func launchedAsync(p *Program, f *ssa.Function) bool {
+	for _, g := range p.allFuncs {
+		for _, b := range g.Blocks {
+			for _, in := range b.Instrs {
+				gi, ok := in.(*ssa.Go)
+				if !ok {
+					continue
+				}
+				if gi.Call.StaticCallee() == f {
+					return true
+				}
+				if mc, ok := gi.Call.Value.(*ssa.MakeClosure); ok && mc.Fn == f {
+					return true
+				}
+			}
+		}
+	}
+	return false
 }
